@@ -53,6 +53,49 @@ func c15IfWithInitCall(fd *ast.FuncDecl, sel string) *ast.IfStmt {
 	return found
 }
 
+// c15PassesOffset tells whether fn builds a readRequest composite literal whose
+// Offset field (keyed `Offset: x`, or the positional third field) is exactly
+// fn's own offset parameter (its last parameter).
+func c15PassesOffset(fd *ast.FuncDecl) (found, passes bool) {
+	params := fd.Type.Params.List
+	if len(params) == 0 {
+		return false, false
+	}
+	last := params[len(params)-1]
+	if len(last.Names) == 0 {
+		return false, false
+	}
+	param := last.Names[len(last.Names)-1].Name
+	isParam := func(x ast.Expr) bool {
+		id, ok := x.(*ast.Ident)
+		return ok && id.Name == param
+	}
+	ast.Inspect(fd.Body, func(n ast.Node) bool {
+		cl, ok := n.(*ast.CompositeLit)
+		if !ok {
+			return true
+		}
+		if id, ok := cl.Type.(*ast.Ident); !ok || id.Name != "readRequest" {
+			return true
+		}
+		found = true
+		keyed := false
+		for _, el := range cl.Elts {
+			if kv, ok := el.(*ast.KeyValueExpr); ok {
+				keyed = true
+				if k, ok := kv.Key.(*ast.Ident); ok && k.Name == "Offset" && isParam(kv.Value) {
+					passes = true
+				}
+			}
+		}
+		if !keyed && len(cl.Elts) == 3 && isParam(cl.Elts[2]) {
+			passes = true
+		}
+		return true
+	})
+	return found, passes
+}
+
 func c15Bool(b bool) string {
 	if b {
 		return "true"
@@ -117,6 +160,20 @@ func init() {
 				}
 			}
 			fmt.Fprintf(&e.b, "Definition open_seek_failure_falls_through : bool := %s.\n", c15Bool(falls))
+		}
+		// both real openers must hand the offset they are given to Worker.Read
+		for _, fc := range [][2]string{{"evalOpenerAt.OpenAt", "eval_opener_passes_offset"}, {"machineTaskPartition.OpenAt", "machine_opener_passes_offset"}} {
+			fd := p.findFunc(fc[0])
+			if fd == nil || fd.Body == nil {
+				e.fail("exec: %s not found", fc[0])
+				continue
+			}
+			found, passes := c15PassesOffset(fd)
+			if !found {
+				e.fail("exec: %s: no readRequest literal found", fc[0])
+				continue
+			}
+			fmt.Fprintf(&e.b, "Definition %s : bool := %s.\n", fc[1], c15Bool(passes))
 		}
 		_ = token.INT
 	}})
